@@ -15,9 +15,10 @@ The property under study (this is all you get):
 
 Your task: produce THREE different, independent, realistic changes to the library source (each a small patch a careless or mistaken maintainer could plausibly commit: an off-by-one, a swapped argument, a wrong comparison, a stale variable, a dropped copy, a cached value, a mis-ordered step, two sites that each look fine alone, ...) such that EACH change, applied alone to the pristine tree:
   (1) BREAKS the property above (for some input/configuration/history the statement no longer holds),
-  (2) still imports/compiles, and the existing pinned test suite still passes: run
-      cd {wt} && /venv/bin/python -m pytest -q -p no:cacheprovider --timeout=900 --continue-on-collection-errors test/core/mat/mat_util_test.py test/core/random/prng_test.py test/core/util/haplo_test.py
-      (exactly 92 tests pass on the pristine tree; the rest of the test suite cannot even be collected in this environment, so ignore it),
+  (2) still imports/compiles, and the existing pinned test suite gives the same result as on the pristine tree: run
+      cd {wt} && /venv/bin/python -m pytest -ra -q -p no:cacheprovider --timeout=900 --continue-on-collection-errors 2>&1 | tail -1
+      (the pristine tree gives exactly "1 failed, 92 passed, 305 errors" in ~30 s — the errors are numpy-2 import failures of test modules that
+      cannot be collected in this environment and are not your concern; your patched tree must still give 92 passed),
   (3) needs something SPECIFIC to manifest — a particular multi-step sequence of operations, an unusual-but-valid input (e.g. a particular size, a tie, a zero, a repeated parent, an absent optional array, a per-cross array argument, a particular class among many), a particular generator state, or two cooperating sites — i.e. NOT something any ordinary single call would expose at once. Prefer three changes in different files/classes/mechanisms from one another. Subtle is better than blatant, but it must be a real violation of the statement, not a matter of taste.
 
 Environment facts you need: use /venv/bin/python (3.12). `import pybrops` fails under the installed numpy 2.x unless removed names are restored first, so every demo program must begin with:
